@@ -463,6 +463,36 @@ def micro_c07_scenario(r) -> Dict[str, Any]:
     return sc
 
 
+def micro_c09_scenario(r) -> Dict[str, Any]:
+    """The quote symbol's precision is made finer (public Exchange.set_symbol_precision) after the pair has already
+    traded: fees of later fills are rounded up at the new precision, fees of earlier orders stay as charged. Market
+    orders only, each filled in the bar after its request, so no order spans the change; a query right before the
+    change lets the fee monitor see every earlier order at the precision it was charged with."""
+    qp0 = r.choice([0, 1, 2])
+    qp1 = qp0 + r.choice([1, 2, 3])
+    bp = r.choice([2, 4, 6])
+    p0 = q(D(r.choice(["100.3719", "7.918273", "2503.77", "0.913377"])) * D(r.choice(["1", "1.37"])), 6)
+    flat = lambda t, px: [t, _s(px), _s(px), _s(px), _s(px), "100000"]  # noqa: E731
+    nb = 7
+    bars = [flat(t, p0 * (1 + D(t % 3) / 100)) for t in range(1, nb + 1)]
+    amt = lambda: _s(q(D(r.randint(1, 9)) + unit(bp) * r.randint(1, 10 ** min(bp, 4) - 1), bp))  # noqa: E731
+    order = lambda: {"op": "order", "kind": "market", "side": r.choice(["buy", "sell"]), "pair": "BTC/USD",  # noqa: E731
+                     "amount": amt(), "auto_borrow": False, "auto_repay": False}
+    tk = r.choice([2, 3, 4])
+    actions: Dict[str, List[Dict[str, Any]]] = {}
+    for t in range(1, nb):
+        acts = [order() for _ in range(r.choice([1, 1, 2]))]
+        if t == tk:
+            acts = [{"op": "query"}, {"op": "refine_base", "symbol": "USD", "precision": qp1}] + acts
+        actions[f"BTC/USD@{t}"] = acts
+    actions[f"BTC/USD@{nb}"] = [{"op": "query"}]
+    return {"class": "micro_c09", "symbols": {"BTC": bp, "USD": qp0}, "pairs": [["BTC", "USD"]], "explicit_pair_info": [],
+            "early_lookup": r.random() < 0.5, "fee": {"pct": r.choice(["0.1", "0.25", "0.37", "1.3"]), "min": r.choice(["0", "0", "0.01"])},
+            "liq": {"limit": "25", "impact": "0"}, "lend": None, "max_concurrent": 50, "bars": {"BTC/USD": bars},
+            "init": {"USD": _s(p0 * 1000), "BTC": "500"}, "actions": actions, "on_order_event": [], "jobs": [],
+            "refined_to": qp1}
+
+
 def run_micro(cls: str, r, prop: str, res: ShardResult, other: collections.Counter, index=None) -> None:
     from vf.exsim import props
     if cls == "micro_c04":
@@ -494,6 +524,11 @@ def run_micro(cls: str, r, prop: str, res: ShardResult, other: collections.Count
     elif cls == "micro_c07":
         props.one(prop, micro_c07_scenario(r), res, other)
         res.count("micro_c07_runs")
+    elif cls == "micro_c09":
+        run = props.one(prop, micro_c09_scenario(r), res, other)
+        res.count("micro_c09_runs")
+        res.count("micro_c09_precision_refined", run.stats["precision_refined"])
+        res.count("micro_c09_fee_checks_at_earlier_precision", run.stats["fee_checks_at_earlier_precision"])
     elif cls == "micro_c10":
         sc = micro_c10_scenario(r)
         props.one(prop, sc, res, other)
